@@ -132,8 +132,9 @@ def rule_rename(rep, prog, rid='R16.rename'):
     if not ev.loops:
         rep.ob(rid, 'contraction:loop', None, 'no sequential contraction loop found', site); return
     lp = ev.loops[-1]
-    step = lp['summary'].get('branches')
-    carried = Poly.atom(('carried', 'branches'))
+    cname = lp['assigned'][0] if len(lp['assigned']) == 1 else 'branches'
+    step = lp['summary'].get(cname)
+    carried = Poly.atom(('carried', cname))
     # ---- which shorts, which pairs
     it = lp['iter']
     branches = ev.getattr(A('network'), 'branches', f.mod, 0)
@@ -153,13 +154,13 @@ def rule_rename(rep, prog, rid='R16.rename'):
         elif not has_opaque(it): pairs_ok = False
         if not sel_ok: why = f'short selection = {src!r:.200}'
     rep.ob(rid, 'contraction:pairs', pairs_ok, why, site, lhs=it)
-    init = lp['init'].get('branches')
+    init = lp['init'].get(cname)
     rep.ob(rid, 'contraction:start', True if term_equal(init, branches) else (None if has_opaque(init) else False), f'starts from {init!r:.80}', site)
     # ---- per-branch rewrite
     if not isinstance(step, Comp):
         rep.ob(rid, 'contraction:step', None, f'step = {step!r:.200}', site); return
     an_t, rn_t = A('absorbed'), A('retained')
-    step = ev.reeval_loop(lp, (an_t, rn_t)).get('branches')
+    step = ev.reeval_loop(lp, (an_t, rn_t)).get(cname)
     if not isinstance(step, Comp):
         rep.ob(rid, 'contraction:step', None, f'step = {step!r:.200}', site); return
     # innermost element atom = element of the carried list
